@@ -106,6 +106,19 @@ Ninth round (i) - changes that bite only when something fails at the transport b
 * **C18-i** (byte counting in the instrumented websocket wrapper fails on a closed websocket): new wire peers on the long-polling transport (sim/poll.py) that start a websocket upgrade and abandon it before or after the probe; the twin comparison shows the instrumented server's client stuck behind NOOPs.
 * **C19-i** (emit()/call() give up when `client.connected` is false): a reconnection that takes several attempts (nothing answers for 3 s) with a call() waiting for its answer when the connection goes, and a pre-emption point between the connected-wait and what follows it.
 * **C07-i, C14-i** need engine.io's `send()` to raise; the engine.io that runs for real in the simulation (and in deployments with this pin) never does on asyncio - not claimed (see the table).
+
+Tenth round (j) - cross-talk / wrong-key changes that need several parties at once (state keyed too coarsely, shared between instances, looked up under the wrong key); with one client on one namespace everything looks perfect. 11 of 18 missed at first, all reported after strengthening:
+
+* **C02-j / C09-j** (a server DISCONNECT of one namespace clears the client's whole callback table): C09's scripted server ends ONE of the client's namespaces in mid-history; C02 connects the client to a spare namespace nothing is sent on and has the server end it while messages and their acknowledgements are in flight on the others.
+* **C04-j** (a server-wide "connect handlers take auth" flag): the served namespaces' connect handlers now differ in their declared arity within one run (`(sid, environ, auth)` for one, `(sid, environ)` for the next).
+* **C06-j** (callbacks popped under every *room name* the departing client was in): "follow" rooms - a client enters the room named after another client's session id and then goes away while that client has acknowledgements outstanding.
+* **C08-j** (pending callbacks released per namespace, only while `connected`): the application's connect handler emits with a callback at once; after a partially refused `connect(wait=True)` the stale ACK must fire nothing on the next connection.
+* **C10-j** (the reconnect guard asks whether *any* client is reconnecting): a second client object in the same process, on its own namespace, loses its transport a moment after the first.
+* **C11-j** (`pending_disconnect.pop(0)`): "the host leaves, kick the guests" - a client's disconnect handler disconnects another client of the namespace (nested terminations).
+* **C13-j** (catch-all resolution memoised per event name): after the lifecycle the same registry serves two namespaces at once and the same event name arrives on both (client and server).
+* **C15-j** (`host_id` as a class attribute): an emit published by the *other* host must be applied, not taken for an own echo (also reported by C07).
+* **C19-j** (a class-level `input_buffer`): two more simple clients in the same process, each sent its own events.
+* **C20-j** (the pending mark checked per namespace, not per client): the other client of the namespace is in the middle of being disconnected (its handler takes a while) when the concurrent terminations start. (Disconnecting two *different* clients concurrently raises `KeyError` in `basic_disconnect` on the unchanged tree - thread-unsafety between clients, outside C20's quantifier; observed, not claimed.)
 """
 
 
